@@ -153,7 +153,8 @@ type Cmd struct {
 	Dir  string `json:"dir,omitempty"`  // Poke: in | out
 	Slot int    `json:"slot,omitempty"` // Poke: which mutable location
 
-	Native string `json:"native,omitempty"` // Native: activate | set | matcher-panic | updater-missing ...
+	Native  string `json:"native,omitempty"`  // Native: activate | set | matcher-panic | updater-missing ...
+	Verdict bool   `json:"verdict,omitempty"` // Native matcher: the constant answer of the registered Go matcher
 }
 
 func (c *Cmd) clone() *Cmd {
@@ -243,6 +244,9 @@ func (c *Cmd) String() string {
 	}
 	if c.Native != "" {
 		fmt.Fprintf(&sb, " native=%s", c.Native)
+		if c.Native == "matcher" {
+			fmt.Fprintf(&sb, " answers %v", c.Verdict)
+		}
 	}
 	return sb.String()
 }
